@@ -42,7 +42,9 @@ import (
 	"verif/harness/lib/gitx"
 )
 
-// Content is a compact recipe: Pre + Unit*Rep + prng(RandSeed)[:RandLen] + Post.
+// Content is a compact recipe: Pre + Unit*Rep + prng(RandSeed)[:RandLen] + Post
+// + Unit2*Rep2 + Post2 (the second filler and trailer are used by the "eol"
+// shape only; absent in cases recorded earlier).
 type Content struct {
 	Shape    string
 	Pre      []byte
@@ -51,11 +53,14 @@ type Content struct {
 	RandLen  int
 	RandSeed uint64
 	Post     []byte
+	Unit2    []byte `json:",omitempty"`
+	Rep2     int    `json:",omitempty"`
+	Post2    []byte `json:",omitempty"`
 }
 
 // Bytes expands the recipe (deterministic).
 func (c Content) Bytes() []byte {
-	n := len(c.Pre) + len(c.Unit)*c.Rep + c.RandLen + len(c.Post)
+	n := len(c.Pre) + len(c.Unit)*c.Rep + c.RandLen + len(c.Post) + len(c.Unit2)*c.Rep2 + len(c.Post2)
 	b := make([]byte, 0, n)
 	b = append(b, c.Pre...)
 	for i := 0; i < c.Rep; i++ {
@@ -71,6 +76,10 @@ func (c Content) Bytes() []byte {
 		b = append(b, byte(z))
 	}
 	b = append(b, c.Post...)
+	for i := 0; i < c.Rep2; i++ {
+		b = append(b, c.Unit2...)
+	}
+	b = append(b, c.Post2...)
 	return b
 }
 
@@ -83,6 +92,12 @@ type Case struct {
 	Chunk     int    // write chunk size used for go-git writers (0 = one Write)
 	GitLevel  int    // core.looseCompression for the git-written object, -1 = default
 	Threshold int64  // filesystem.Options.LargeObjectThreshold for the reverse read
+	// AutoCRLF (wt-add only): core.autocrlf of the repository the file is added
+	// to: "" (unset), "false", "input", "true". The id and the stored bytes
+	// expected from Worktree.Add are then the ones of `git -c core.autocrlf=X
+	// hash-object -w --path=f --stdin` (git's clean conversion of a file that is
+	// not in the index), not the ones of the literal bytes.
+	AutoCRLF string `json:",omitempty"`
 }
 
 var types = []string{"blob", "tree", "commit", "tag"}
@@ -95,7 +110,7 @@ func gen(t *rapid.T, _ *evid.Recorder) Case {
 		Type:   rapid.SampledFrom(types).Draw(t, "type"),
 	}
 	bs := func(lo, hi int, l string) []byte { return rapid.SliceOfN(rapid.Byte(), lo, hi).Draw(t, l) }
-	switch rapid.IntRange(0, 8).Draw(t, "shape") {
+	switch rapid.IntRange(0, 12).Draw(t, "shape") {
 	case 0:
 		c.Content.Shape = "empty"
 	case 1:
@@ -157,12 +172,41 @@ func gen(t *rapid.T, _ *evid.Recorder) Case {
 			c.Content.RandLen = rapid.IntRange(65536, hi).Draw(t, "rlen")
 			c.Content.RandSeed = rapid.Uint64().Draw(t, "rseed")
 		}
+	case 9, 10, 11, 12:
+		// line-structured content with one end-of-line / binary marker placed at a chosen
+		// distance from a buffer boundary: the 8000-byte prefix git's *other* text heuristics
+		// look at, the 32 KiB copy buffer, bufio's 4096, 64 KiB. What matters to
+		// core.autocrlf is the classification of the WHOLE file.
+		c.Content.Shape = "eol"
+		c.Type = "blob"
+		fill := func(l string) []byte {
+			return []byte(rapid.SampledFrom([]string{"a\n", "ab\r\n", "abc\r\n", "x", "line\n", "\r\n", "\n", "ab\r\nc\n", "\ttab\r\n", "\x01\x02\x03\n", "\xc3\xa9\r\n", "ab\r\n", "\r\n"}).Draw(t, l))
+		}
+		mark := func(l string) []byte {
+			return []byte(rapid.SampledFrom([]string{"\r\n", "\r\n", "\r\n", "\r", "\x00", "\x00", "\n", "\r\r\n", "\x1a", "\r\nX", "\x7f", "\x01", "\rX", "\n\r", ""}).Draw(t, l))
+		}
+		at := rapid.SampledFrom([]int{8000, 8000, 8000, 8000, 32768, 32768, 32768, 4096, 8192, 65536, 100, 16000}).Draw(t, "boundary") + rapid.SampledFrom([]int{-3, -2, -1, -1, -1, 0, 0, 1, 2}).Draw(t, "delta")
+		c.Content.Unit = fill("unit")
+		c.Content.Rep = at / len(c.Content.Unit)
+		c.Content.Pre = bytes.Repeat([]byte("z"), at%len(c.Content.Unit)) // the marker starts exactly at offset `at`
+		c.Content.Post = mark("marker")
+		c.Content.Unit2 = fill("unit2")
+		c.Content.Rep2 = rapid.SampledFrom([]int{0, 0, 1, 3, 40, 2000, 9000}).Draw(t, "rep2")
+		if rapid.IntRange(0, 3).Draw(t, "late") == 0 {
+			c.Content.Post2 = mark("marker2")
+		}
 	}
 	entries := []string{"fs-set", "fs-raw", "fs-lazy", "mem-set", "mem-raw", "fs-set", "fs-raw", "fs-lazy"}
 	if c.Type == "blob" {
 		entries = append(entries, "wt-add", "wt-add", "wt-add")
 	}
+	if c.Content.Shape == "eol" { // mostly through Worktree.Add, the only entry point that looks at line endings
+		entries = []string{"wt-add", "wt-add", "wt-add", "wt-add", "wt-add", "wt-add", "fs-set", "fs-raw", "fs-lazy", "mem-set"}
+	}
 	c.Entry = rapid.SampledFrom(entries).Draw(t, "entry")
+	if c.Entry == "wt-add" {
+		c.AutoCRLF = rapid.SampledFrom([]string{"", "false", "input", "true", "input", "true", "input", "true"}).Draw(t, "autocrlf")
+	}
 	c.Chunk = rapid.SampledFrom([]int{0, 1, 7, 512, 4096, 32768, 32769}).Draw(t, "chunk")
 	c.GitLevel = rapid.SampledFrom([]int{-1, 0, 1, 9}).Draw(t, "gitlevel")
 	c.Threshold = rapid.SampledFrom([]int64{0, 1, 0, 4096}).Draw(t, "threshold")
@@ -179,6 +223,42 @@ func scratch() string {
 		panic("INFRA: scratch: " + err.Error())
 	}
 	return d
+}
+
+// eolLabels measures which end-of-line shapes a file added under
+// core.autocrlf=input|true has (labels only; the verdict comes from git).
+func eolLabels(b []byte) []string {
+	binary := func(b []byte) bool { // NUL or a CR not followed by LF
+		for i, x := range b {
+			if x == 0 || (x == '\r' && (i+1 == len(b) || b[i+1] != '\n')) {
+				return true
+			}
+		}
+		return false
+	}
+	var l []string
+	if bytes.Contains(b, []byte("\r\n")) {
+		l = append(l, "eol:has-CRLF")
+		if len(b) > 8000 {
+			l = append(l, "eol:has-CRLF,size>8000")
+			if binary(b) && !binary(b[:8000]) {
+				l = append(l, "eol:has-CRLF,NUL-or-lone-CR-only-after-offset-8000")
+			}
+			if b[7999] == '\r' && b[8000] == '\n' {
+				l = append(l, "eol:CRLF-straddles-offset-8000")
+				if !binary(b) {
+					l = append(l, "eol:CRLF-straddles-offset-8000,text")
+				}
+			}
+		}
+		for k := 32768; k < len(b); k += 32768 {
+			if b[k-1] == '\r' && b[k] == '\n' {
+				l = append(l, "eol:CRLF-straddles-a-multiple-of-32768")
+				break
+			}
+		}
+	}
+	return l
 }
 
 func headerLike(b []byte) bool {
@@ -285,6 +365,15 @@ func check(c Case) evid.Result {
 	if c.Entry == "wt-add" && c.Type != "blob" {
 		return evid.Result{Discard: true}
 	}
+	switch c.AutoCRLF {
+	case "":
+	case "false", "input", "true":
+		if c.Entry != "wt-add" {
+			return evid.Result{Discard: true}
+		}
+	default:
+		return evid.Result{Discard: true}
+	}
 	of := fcfg.SHA1
 	if c.Format == "sha256" {
 		of = fcfg.SHA256
@@ -301,6 +390,16 @@ func check(c Case) evid.Result {
 	}
 	if hasNUL {
 		res.Labels = append(res.Labels, "has-NUL")
+	}
+	if c.Entry == "wt-add" {
+		v := c.AutoCRLF
+		if v == "" {
+			v = "unset"
+		}
+		res.Labels = append(res.Labels, "wt-add:autocrlf="+v)
+		if c.AutoCRLF == "input" || c.AutoCRLF == "true" {
+			res.Labels = append(res.Labels, eolLabels(content)...)
+		}
 	}
 	sig := func(what string) string { return "C01/" + what + ":" + c.Format + ":" + c.Type }
 
@@ -373,6 +472,44 @@ func check(c Case) evid.Result {
 	}
 
 	// ---- (b) go-git writes, git reads
+	// Under core.autocrlf Worktree.Add has to store what git's clean conversion stores for a
+	// file of these bytes that is new to the index: git says which id and which bytes.
+	entryName := c.Entry
+	if c.Entry == "wt-add" && c.AutoCRLF != "" {
+		a := []string{"-c", "core.autocrlf=" + c.AutoCRLF}
+		if c.GitLevel >= 0 {
+			a = append(a, "-c", "core.looseCompression="+strconv.Itoa(c.GitLevel))
+		}
+		a = append(a, "hash-object", "-w", "--path=f", "--stdin")
+		cw := strings.TrimSpace(gitx.MustIn(gdir, content, a...))
+		if len(cw) != of.HexSize() {
+			panic("INFRA: unexpected hash-object output " + cw)
+		}
+		kept := "git-keeps-bytes"
+		if cw != want {
+			gt, _, gdata, ok := catBatch(gdir, cw)
+			if !ok || gt != "blob" {
+				panic("INFRA: git cannot read back its own converted blob " + cw)
+			}
+			if c.AutoCRLF == "false" || !bytes.Equal(gdata, bytes.ReplaceAll(content, []byte("\r\n"), []byte("\n"))) {
+				panic(fmt.Sprintf("INFRA: oracle: git -c core.autocrlf=%s hash-object --path stored something other than the CRLF->LF image of the input (%s for %s)", c.AutoCRLF, abbrev(gdata), abbrev(content)))
+			}
+			want, content, kept = cw, gdata, "git-converts"
+			wantPath = filepath.Join("objects", want[:2], want[2:])
+			res.Labels = append(res.Labels, "wt-add:git-converts-CRLF")
+		}
+		entryName = fmt.Sprintf("wt-add(autocrlf=%s,%s)", c.AutoCRLF, kept)
+		f, err := os.OpenFile(filepath.Join(wdir, ".git", "config"), os.O_APPEND|os.O_WRONLY, 0)
+		if err == nil {
+			_, err = f.WriteString("[core]\n\tautocrlf = " + c.AutoCRLF + "\n")
+			if cerr := f.Close(); err == nil {
+				err = cerr
+			}
+		}
+		if err != nil {
+			panic("INFRA: " + err.Error())
+		}
+	}
 	var got plumbing.Hash
 	var werr error
 	var memst *memory.Storage
@@ -429,7 +566,7 @@ func check(c Case) evid.Result {
 		}
 		st.Close()
 	case "wt-add":
-		if err := os.WriteFile(filepath.Join(wdir, "f"), content, 0o644); err != nil {
+		if err := os.WriteFile(filepath.Join(wdir, "f"), c.Content.Bytes(), 0o644); err != nil {
 			panic("INFRA: " + err.Error())
 		}
 		r, err := git.PlainOpen(wdir)
@@ -470,27 +607,27 @@ func check(c Case) evid.Result {
 		return evid.Result{Discard: true}
 	}
 	if werr != nil {
-		res.Fail = evid.Failf(sig("write-error-"+c.Entry), "%s of %d bytes failed: %v", c.Entry, len(content), werr)
+		res.Fail = evid.Failf(sig("write-error-"+entryName), "%s of %d bytes failed: %v", entryName, len(content), werr)
 		return res
 	}
 	if got.String() != want {
-		res.Fail = evid.Failf(sig("id-"+c.Entry), "%s returned id %s, git hash-object = %s (content %s)", c.Entry, got, want, abbrev(content))
+		res.Fail = evid.Failf(sig("id-"+entryName), "%s returned id %s, git hash-object = %s (content %s)", entryName, got, want, abbrev(content))
 		return res
 	}
 	if memst != nil {
 		if f := readBack(memst, typ, want, content, int64(len(content))); f != "" {
-			res.Fail = evid.Failf(sig("read-"+c.Entry), "memory storage after %s: %s", c.Entry, f)
+			res.Fail = evid.Failf(sig("read-"+entryName), "memory storage after %s: %s", entryName, f)
 		}
 		return res
 	}
 	if _, err := os.Stat(filepath.Join(wdir, ".git", wantPath)); err != nil {
-		res.Fail = evid.Failf(sig("loose-path-"+c.Entry), "%s: no loose object at %s: %v", c.Entry, wantPath, err)
+		res.Fail = evid.Failf(sig("loose-path-"+entryName), "%s: no loose object at %s: %v", entryName, wantPath, err)
 		return res
 	}
 	gt, gsz, gdata, ok := catBatch(wdir, want)
 	if !ok || gt != c.Type || gsz != len(content) || !bytes.Equal(gdata, content) {
-		res.Fail = evid.Failf(sig("git-reads-"+c.Entry), "git cat-file --batch on the object written by %s: ok=%v type=%q (want %s) size=%d (want %d) bytes=%s (want %s)",
-			c.Entry, ok, gt, c.Type, gsz, len(content), abbrev(gdata), abbrev(content))
+		res.Fail = evid.Failf(sig("git-reads-"+entryName), "git cat-file --batch on the object written by %s: ok=%v type=%q (want %s) size=%d (want %d) bytes=%s (want %s)",
+			entryName, ok, gt, c.Type, gsz, len(content), abbrev(gdata), abbrev(content))
 		return res
 	}
 	// differential fsck: same single object in both repositories (the index of wt-add only adds a reference to it).
@@ -499,23 +636,23 @@ func check(c Case) evid.Result {
 		fg := fsck(gdir)
 		res.Labels = append(res.Labels, "fsck-differential")
 		if fg == fw {
-			return rereadOwn(c, res, wdir, typ, want, content, sig)
+			return rereadOwn(c, entryName, res, wdir, typ, want, content, sig)
 		}
-		res.Fail = evid.Failf(sig("fsck-differs-"+c.Entry), "git fsck differs between the repository where git stored %s and the one where go-git (%s) did:\n--- git-written\n%s\n--- go-git-written\n%s", want, c.Entry, fg, fw)
+		res.Fail = evid.Failf(sig("fsck-differs-"+entryName), "git fsck differs between the repository where git stored %s and the one where go-git (%s) did:\n--- git-written\n%s\n--- go-git-written\n%s", want, entryName, fg, fw)
 		return res
 	}
-	return rereadOwn(c, res, wdir, typ, want, content, sig)
+	return rereadOwn(c, entryName, res, wdir, typ, want, content, sig)
 }
 
 const fsckClean = "\x00notice: HEAD points to an unborn branch (main)\nnotice: No default references\n"
 
 // rereadOwn: go-git reads its own object back through a fresh storage.
-func rereadOwn(c Case, res evid.Result, wdir string, typ plumbing.ObjectType, want string, content []byte, sig func(string) string) evid.Result {
+func rereadOwn(c Case, entryName string, res evid.Result, wdir string, typ plumbing.ObjectType, want string, content []byte, sig func(string) string) evid.Result {
 	st := openFS(filepath.Join(wdir, ".git"), c.Threshold)
 	f := readBack(st, typ, want, content, int64(len(content)))
 	st.Close()
 	if f != "" {
-		res.Fail = evid.Failf(sig("reread-"+c.Entry), "go-git re-reading the object written by %s: %s", c.Entry, f)
+		res.Fail = evid.Failf(sig("reread-"+entryName), "go-git re-reading the object written by %s: %s", entryName, f)
 	}
 	return res
 }
